@@ -10,6 +10,12 @@ def is_copy(P):
     return bool(P.s("clone", "copy", False))
 
 
+def bitwise(P):
+    """Copy educed and no custom clone method anywhere in the type: clone() is a plain copy that
+    calls no Clone impl; with a method in use clone() is field-wise even for a Copy type"""
+    return is_copy(P) and not any(f.s("clone", "method") for v in P.variants for f in v.fields)
+
+
 def verus(P, impls, u, prop="C07"):
     ims = [im for im in impls if trait_of(im) == "Clone"]
     if len(ims) != 1:
@@ -28,7 +34,7 @@ def verus(P, impls, u, prop="C07"):
             m = f.s("clone", "method")
             if m:
                 ts.append("r%d == %s_spec(x%d)" % (f.idx, m, f.idx))
-            elif is_copy(P):
+            elif bitwise(P):
                 ts.append("r%d == x%d" % (f.idx, f.idx))
             else:
                 ts.append("cloned(x%d, r%d)" % (f.idx, f.idx))
@@ -59,7 +65,7 @@ def kani(P, u, prop):
                 vals.append("%s(x%d)" % (m, f.idx))
             elif ity.startswith("crate::m::Ctr<"):
                 vals.append("crate::m::Ctr(x%d.0)" % f.idx)
-                if not is_copy(P):
+                if not bitwise(P):
                     cnt.append(ity[len("crate::m::Ctr<"):-1])
             else:
                 vals.append("*x%d" % f.idx)
